@@ -56,7 +56,7 @@ Theorem C14_create_existing_refused : forall (s : cst) (m : nat) (name : N) rv,
   get_pc (c_pcs s) m = CIdle -> tget (c_tabs s) name = Some rv -> snd (cexec s (ACreate m name)) = CRExists.
 Proof. exact create_existing_refused. Qed.
 Theorem C14_create_sequence_step_ok : forall (s : cst) (m : nat) (name v ver : N),
-  get_pc (c_pcs s) m = CCreate2 name v ver -> (c_seq s = Some (v, ver) \/ c_seq s = None) ->
+  get_pc (c_pcs s) m = CCreate2 name v ver -> (c_seq s = Some (v, ver) \/ (c_seq s = None /\ ver = 0)) ->
   exists s', cexec s (AStep m) = (s', CRNone) /\ c_pcs s' = set_pc (c_pcs s) m (CCreate3 name (v + 1)) /\ c_tabs s' = c_tabs s.
 Proof. exact create_step_seq_ok. Qed.
 Theorem C14_create_record_step_ok : forall (s : cst) (m : nat) (name id : N),
@@ -69,6 +69,25 @@ Theorem C14_race : forall (s : cst) (m : nat) (name id : N) r w, CInv s ->
   get_pc (c_pcs s) m = CCreate3 name id -> tget (c_tabs s) name = Some (r, w) -> snd (cexec s (AStep m)) = CRExists.
 Proof. exact race_second_create_fails. Qed.
 Print Assumptions C14_race.
+
+(* deleting succeeds only if the table exists, racing deletions included: the second one is refused (repaired code,
+   KNOWN_FINDINGS F-C14-absent-key-cas) *)
+Theorem C14_delete_reads_positive_version : forall (s : cst) (m : nat) (name : N) r (ver : N), CInv s ->
+  get_pc (c_pcs s) m = CIdle -> tget (c_tabs s) name = Some (r, ver) ->
+  fst (cexec s (ADelete m name)) = with_pc s m (CDelete1 name ver) /\ 1 <= ver.
+Proof. exact delete_reads_positive. Qed.
+Theorem C14_race_delete : forall (s : cst) (m : nat) (name ver : N), get_pc (c_pcs s) m = CDelete1 name ver -> ver <> 0 ->
+  tget (c_tabs s) name = None -> snd (cexec s (AStep m)) = CRFailed /\ c_tabs (fst (cexec s (AStep m))) = c_tabs s.
+Proof. exact race_second_delete_fails. Qed.
+Theorem C14_restore_does_not_resurrect : forall (s : cst) (m : nat) (name : N) r (ver id : N),
+  get_pc (c_pcs s) m = CRest3 name r ver id -> ver <> 0 -> tget (c_tabs s) name = None ->
+  snd (cexec s (AStep m)) = CRFailed /\ c_tabs (fst (cexec s (AStep m))) = c_tabs s.
+Proof. exact restore_after_delete_fails. Qed.
+Print Assumptions C14_race_delete.
+Example C14_delete_race_example :
+  snd (crun (cst0 2) [ACreate 0 7; AStep 0; AStep 0; AStep 0; ADelete 0 7; ADelete 1 7; AStep 0; AStep 1]) =
+  [CRNone; CRNone; CRNone; CRCreated 10001; CRNone; CRNone; CRDeleted; CRFailed].
+Proof. vm_compute. reflexivity. Qed.
 
 (* listing reflects precisely the created-and-not-deleted tables *)
 Theorem C14_listing_exact : forall (s : cst) (m : nat) (name : N), get_pc (c_pcs s) m = CIdle ->
